@@ -232,13 +232,31 @@ def run_replay(beh_path, dims, nshards=None, timeout=1800, binary="replay", extr
     infra = []
     for i, p in enumerate(procs):
         out, err = p.communicate()
+        started = None
         for line in out.splitlines():
             try:
-                results.append(json.loads(line))
+                r = json.loads(line)
             except ValueError:
                 infra.append("unparsable result line: %r" % line[:200])
+                continue
+            if r.get("status") == "started":
+                started = r
+                continue
+            started = None
+            results.append(r)
         if p.returncode != 0:
-            infra.append("replay shard %d exit %d: %s" % (i, p.returncode, err[-2000:]))
+            # the process died.  A Go panic whose innermost frames are the library's (not the harness's) while a
+            # behaviour was being replayed is behaviour of the implementation: reported for that behaviour.
+            m = re.search(r"^(panic: .*|fatal error: .*|unexpected fault address.*)$", err, re.M)
+            frames = re.findall(r"^(\S+)\(.*\)$", err[m.end():] if m else "", re.M)[:4]
+            frames = [f for f in frames if not f.startswith(("runtime.", "panic(", "sync.", "internal/"))]
+            if started is not None and m and frames and frames[0].startswith("github.com/couchbase/moss."):
+                results.append({"id": started["id"], "variant": started.get("variant", 0), "status": "crash",
+                                "steps": [{"step": -1, "act": "(process died)", "mismatches": [
+                                    {"what": "crash.panic", "got": "%s in %s" % (m.group(1), frames[0]), "want": "the library does not take the process down"}]}],
+                                "stack": err[m.start():m.start() + 3000]})
+            else:
+                infra.append("replay shard %d exit %d: %s" % (i, p.returncode, err[-2000:]))
     shutil.rmtree(scratch_dir, ignore_errors=True)
     return results, infra
 
@@ -467,5 +485,9 @@ def main_wrapper(fn):
         rc = 2
     except subprocess.TimeoutExpired as e:
         log("INFRA: timeout %s" % e)
+        rc = 2
+    except Exception:      # a bug of the machinery is never a verdict about the implementation
+        import traceback
+        log("INFRA: internal error of the check\n" + traceback.format_exc())
         rc = 2
     sys.exit(rc)
